@@ -863,6 +863,9 @@ func (ctx *RequestContext) HandlerName() string {
 }
 
 func (ctx *RequestContext) ResetWithoutConn() {
+	// (the server takes the hijack handler right after the handlers have run; when
+	// they panicked it is still here)
+	ctx.hijackHandler = nil
 	ctx.Params = ctx.Params[0:0]
 	ctx.Errors = ctx.Errors[0:0]
 	ctx.handlers = nil
